@@ -201,7 +201,9 @@ rc::Gen<Case> gen_case(const vf::Options&) {
             long n = *vf::range(i == 0 ? 0 : 1, 5);
             auto& prog = c.S("a" + std::to_string(i));
             for (long k = 0; k < n; k++) {
-                long kind = *rc::gen::weightedOneOf<long>({{8, rc::gen::just<long>(10)}, {1, rc::gen::just<long>(OP_YIELD)}, {1, rc::gen::just<long>(OP_SLEEP)}});
+                // (an interrupt aimed at another submitter may find it blocked inside call(): call() must still wait for its task)
+                long kind = *rc::gen::weightedOneOf<long>({{8, rc::gen::just<long>(10)}, {1, rc::gen::just<long>(OP_YIELD)}, {1, rc::gen::just<long>(OP_SLEEP)}, {nsub > 1 ? 2 : 0, rc::gen::just<long>(OP_INT)}});
+                if (kind == OP_INT) { prog.push_back({kind, *vf::range(0, nsub - 1), *vf::range(0, 2)}); continue; }
                 if (kind == 10) prog.push_back(gen_submit());
                 else if (kind == OP_SLEEP) prog.push_back({kind, *gen_duration()});
                 else prog.push_back({kind});
